@@ -29,6 +29,8 @@ const PATHS: &[&str] = &[
     "wasi:io/streams@0.2.0",
     "a:b/c@1.0.0",
     "a:b/c@2.0.0",
+    // a nested name (accepted by the validator with all features on): the *last* segment counts
+    "foo:bar/sub/qux",
 ];
 const COMPONENT_NAMES: &[&str] = &["test:p0", "test:p1", "foo:comp", "x:srv", "my:stream"];
 const LOCALS: &[&str] = &["s", "t", "u", "v", "w", "i", "j", "k", "baz", "qux", "streams", "c", "handler", "run", "a", "b", "foo-bar"];
@@ -113,7 +115,7 @@ fn gen_lib(r: &mut Rng) -> Vec<Package> {
         }
         r.shuffle(&mut pool);
         let mut exports: Vec<(String, Kind)> = Vec::new();
-        for &j in pool.iter().take(nexp) {
+        for &j in pool.iter().filter(|&&j| table[j].0.matches('/').count() <= 1).take(nexp) {
             let (n, k) = table[j].clone();
             // an export may have another kind than the import of the same name elsewhere
             let k = if r.chance(1, 6) {
@@ -144,7 +146,7 @@ fn gen_lib(r: &mut Rng) -> Vec<Package> {
     // type packages: `ns:pkg[@ver]` exporting interface definitions
     let mut tp: Vec<Package> = Vec::new();
     for p in PATHS {
-        if !r.chance(2, 3) {
+        if !r.chance(2, 3) || p.matches('/').count() != 1 {
             continue;
         }
         let (pkg, ver, iface) = split_path(p);
@@ -418,7 +420,7 @@ impl<'a> Gen<'a> {
             Kind::Func(s) => (ImportTy::Func(*s), k.clone()),
             Kind::Inst(id, es) => {
                 // by package path if a type package defines it
-                let by_path = id.as_ref().and_then(|id| {
+                let by_path = id.as_ref().filter(|id| id.matches('/').count() == 1).and_then(|id| {
                     let (pkg, ver, iface) = split_path(id);
                     self.lib.iter().find(|p| p.name == pkg && p.version == ver && lookup(&p.exports, &iface).map_or(false, |k| matches!(k, Kind::Type(..)))).map(|_| (pkg, ver, iface))
                 });
@@ -438,7 +440,7 @@ impl<'a> Gen<'a> {
         };
         let id = self.fresh_local(Some(&seg));
         let mut as_ = match self.r.below(8) {
-            0 | 1 => Some(n.clone()),
+            0 | 1 if n.matches('/').count() <= 1 => Some(n.clone()),
             2 => Some((*self.r.pick(PLAIN)).to_string()),
             3 => Some("other-name".to_string()),
             _ => None,
@@ -819,7 +821,7 @@ fn fault(r: &mut Rng, base: &Program, lib: &[Package]) -> Option<(Program, &'sta
         }
         12 => {
             // an import that clashes with an implicit or explicit import name
-            let names: Vec<String> = lib.iter().flat_map(|p| p.imports.iter().map(|(n, _)| n.clone())).collect();
+            let names: Vec<String> = lib.iter().flat_map(|p| p.imports.iter().filter(|(n, _)| n.matches('/').count() <= 1).map(|(n, _)| n.clone())).collect();
             if names.is_empty() {
                 return None;
             }
